@@ -211,6 +211,13 @@ def main():
         if bad:
             R.obligation_broken("development hygiene", "; ".join(bad))
         C.ensure_static_build()
+        if a.prop in ("C03", "C04", "C05", "C06", "C07", "C08", "C12", "C16", "C17", "C20"):
+            # these checks rely on harness/absval.py to decide "same value": test the comparator first
+            p = C.run_impl("selftest_absval.py", timeout=300)
+            if p.returncode != 0:
+                R.obligation_broken("comparator self-test (harness/selftest_absval.py)", p.stdout.decode(errors="replace")[-1500:])
+            else:
+                R.trusted_base.append("harness/absval.py, self-tested on this run: " + p.stdout.decode().strip().splitlines()[-1])
         mod = importlib.import_module(f"props.{a.prop.lower()}")
         if a.replay:
             mod.replay(R, json.loads(Path(a.replay).read_text()))
